@@ -510,17 +510,32 @@ func TestVerifC05NoDuplicate(t *testing.T) {
 	st := vfNewStats(t, "C05")
 	for layout := 0; layout < 3; layout++ {
 		for _, n := range []int{0, 100, 200, 400} {
-			spec := vf05Layout(layout, n, &UtlsPaddingExtension{GetPaddingLen: BoringPaddingStyle})
-			spec.Extensions = append(spec.Extensions, &UtlsPaddingExtension{GetPaddingLen: BoringPaddingStyle})
-			raw, err := vf05BuildCustom(spec, "dup.test", uint64(n))
-			st.Eval()
-			st.Class("dup:spec-with-two-padding-extensions")
-			st.NonTrivial(fmt.Sprintf("dup:%d:%d", layout, n))
-			if err != nil {
-				continue // refused: fine
-			}
-			if _, _, fail := vf05Judge(raw); fail != "" {
-				st.Violation(t, "spec with two padding extensions was accepted and gives: %s", fail)
+			for kind := 0; kind < 3; kind++ {
+				mk := func(second bool) *UtlsPaddingExtension {
+					if kind == 0 || (kind == 2 && second) {
+						return &UtlsPaddingExtension{GetPaddingLen: BoringPaddingStyle}
+					}
+					return &UtlsPaddingExtension{PaddingLen: 7 + n%50, WillPad: true}
+				}
+				spec := vf05Layout(layout, n, mk(false))
+				spec.Extensions = append(spec.Extensions, mk(true))
+				raw, err := vf05BuildCustom(spec, "dup.test", uint64(n))
+				st.Eval()
+				st.Class("dup:spec-with-two-padding-extensions")
+				st.NonTrivial(fmt.Sprintf("dup:%d:%d:%d", layout, n, kind))
+				if err != nil {
+					continue // refused: fine
+				}
+				h := vfParseClientHello(raw)
+				cnt := 0
+				for _, e := range h.Exts {
+					if e.Type == 21 {
+						cnt++
+					}
+				}
+				if len(h.Violations) > 0 || cnt > 1 {
+					st.Violation(t, "spec with two padding extensions (kind %d) was accepted and gives %d padding extensions on the wire; parser: %v", kind, cnt, h.Violations)
+				}
 			}
 		}
 	}
